@@ -96,6 +96,14 @@ def gen_repo(rng, portable=True, with_ignored=True, odd=False):
                 if sub == 'news' and rng.random() < 0.5:
                     d('metadata/news/2020-01-01-x')
                     f('metadata/news/2020-01-01-x/2020-01-01-x.en.txt')
+        if len(nodes) % 2 == 0:
+            # a metadata sub-directory that gets no Manifest of its own (as in
+            # ::gentoo), next to those that do; no random draw is spent on it
+            d('metadata/install-qa-check.d')
+            f('metadata/install-qa-check.d/60tmpfiles-paths', {'t': '# qa\n'})
+            if len(nodes) % 4 == 0:
+                d('metadata/install-qa-check.d/sub')
+                f('metadata/install-qa-check.d/sub/helper', {'t': 'h\n'})
         if rng.random() < 0.6:
             d('metadata/md5-cache')
             for c in cats:
